@@ -425,10 +425,22 @@ def rule_I(run, prog):
     cls = prog.cls(RDMMOD + ".ReducedDensityMatrixPropagator")
     n = 0
     for nme, fn in sorted(cls.methods.items()):
-        reads = [x for x in walk_no_nested(fn.node) if isinstance(x, ast.Subscript) and norm(x.value) == "self.RelaxationTensor.data"
+        reads = [x for x in walk_no_nested(fn.node) if isinstance(x, ast.Subscript)
+                 and norm(x.value) in ("self.RelaxationTensor.data", "self.RelaxationTensor.Lm", "self.RelaxationTensor.Ld")
                  and isinstance(x.slice, ast.Tuple) and isinstance(x.slice.elts[0], ast.Name)]
         if not reads:
             continue
+        # (iii) the running index advances by the number of tensor points per refinement step
+        idx = reads[0].slice.elts[0].id
+        ups = [st for st in walk_no_nested(fn.node) if (isinstance(st, ast.AugAssign) and norm(st.target) == idx)
+               or (isinstance(st, ast.Assign) and norm(st.targets[0]) == idx and not isinstance(st.value, ast.Constant))]
+        for u in ups:
+            n += 1
+            ok_u = any(isinstance(y, ast.Name) and y.id == "stride" for y in ast.walk(u.value))
+            run.obligation(rid, fn.short, ok_u, key="index-advances-by-stride:" + norm(u)[:40],
+                           message="%s advances the index into the time-dependent tensor with '%s', independent of the ratio of the "
+                                   "propagation step and the tensor's step: on different grids the tensor is read at the wrong times "
+                                   "(relaxation runs too slowly or too fast)" % (fn.short, norm(u)[:50]), loc=fn.loc(u))
         prog.consulted.add(fn.relpath)
         bounds = [st for st in walk_no_nested(fn.node) if isinstance(st, ast.Assign) and norm(st.targets[0]) == "cutoff_indx"]
         if not bounds:
